@@ -353,6 +353,25 @@ pub fn run(ctx: &'static Ctx) -> i32 {
                 ctx.violation(order, &k, &w, json!({"kind": "suffix", "quantity": q.name, "suffix": s}));
             }
         }
+        for base in q.must_accept {
+            let mut exts: Vec<String> = vec![];
+            for c in "ABCDEFGHIJKLMNOPQRSTUVWXYZ0123456789./-".chars() {
+                exts.push(format!("{base}{c}"));
+                exts.push(format!("{c}{base}"));
+            }
+            for e in ["S.HR", ".HR", "XX", "12", base] {
+                exts.push(format!("{base}{e}"));
+            }
+            for e in exts {
+                if e.len() > 12 {
+                    continue;
+                }
+                for (k, w) in check_suffix(q, e.as_bytes(), &mut acc) {
+                    order += 1;
+                    ctx.violation(order, &k, &w, json!({"kind": "suffix", "quantity": q.name, "suffix": e}));
+                }
+            }
+        }
         for s in ["ABCDEFGHIJKL", "VOLTVOLTVOLT", "HZHZHZHZHZHZ", "MAMAMAMAMAMA", "S/S/S/S/S/S/", "V-1", "M2", "KKV", "MMV", "V.", ".V", "/V", "V/"] {
             for (k, w) in check_suffix(q, s.as_bytes(), &mut acc) {
                 order += 1;
@@ -375,7 +394,7 @@ pub fn run(ctx: &'static Ctx) -> i32 {
     let mut c = cov();
     c.insert("evaluations".into(), json!(acc.evals));
     c.insert("distinct_nontrivial".into(), json!(acc.accepted + acc.derivable_but_unsupported));
-    c.insert("rule".into(), json!(format!("for each of {} quantities x {{f32, f64}} storage: every upper-case suffix string of length 1..{n_all} over the 26 letters + `.` `/` and of length 1..{n_voc} over the SCPI unit vocabulary `ACDEFGHIJKMNOPRSTUVWZ.` ({per_q} strings per quantity), plus every documented suffix, 12-character and malformed suffixes; every accepted suffix is re-run in all 2^len letter-case variants x literals {{1, 1.5, -2.5E-3, 0, 1e6, .001}}; bare numbers; non-numeric elements. Oracle (independent of the implementation's tables): suffix = [multiplier] unit with multipliers EX PE T G MA K M U N P F A (M = milli, MA = mega, MHZ/MOHM = mega), unit names per quantity with their SI factors (CEL/FAR offsets, ANN accepts 365 d / 365.25 d / tropical / sidereal); accepted => derivable and value x factor within 2e-6 (f32) / 1e-12 (f64); non-derivable => refused; documented suffixes must be accepted; Amplitude PK/PP/RMS and Db DB* classification with the number unchanged. Distinct non-trivial = accepted (quantity, suffix, storage) triples + derivable-but-unsupported ones", qs.len())));
+    c.insert("rule".into(), json!(format!("for each of {} quantities x {{f32, f64}} storage: every upper-case suffix string of length 1..{n_all} over the 26 letters + `.` `/` and of length 1..{n_voc} over the SCPI unit vocabulary `ACDEFGHIJKMNOPRSTUVWZ.` ({per_q} strings per quantity), plus every documented suffix, every one-character prefix/suffix extension and several longer extensions of each documented suffix (up to 12 characters), 12-character and malformed suffixes; every accepted suffix is re-run in all 2^len letter-case variants x literals {{1, 1.5, -2.5E-3, 0, 1e6, .001}}; bare numbers; non-numeric elements. Oracle (independent of the implementation's tables): suffix = [multiplier] unit with multipliers EX PE T G MA K M U N P F A (M = milli, MA = mega, MHZ/MOHM = mega), unit names per quantity with their SI factors (CEL/FAR offsets, ANN accepts 365 d / 365.25 d / tropical / sidereal); accepted => derivable and value x factor within 2e-6 (f32) / 1e-12 (f64); non-derivable => refused; documented suffixes must be accepted; Amplitude PK/PP/RMS and Db DB* classification with the number unchanged. Distinct non-trivial = accepted (quantity, suffix, storage) triples + derivable-but-unsupported ones", qs.len())));
     c.insert("exhaustive".into(), json!(true));
     c.insert("accepted_suffix_conversions".into(), json!(acc.accepted));
     c.insert("nonderivable_rejected".into(), json!(acc.rejected_nonderivable));
